@@ -44,7 +44,10 @@ COMMS = [c[:15] for c in COMMS]
 SIGS = [0, 1, 2, 9, 15, 17, 18, 19, 64]
 SETTER_KINDS = ["signal", "suspend", "resume", "terminate", "kill", "nice", "ionice", "rlimit", "affinity"]
 
-TRUSTED = ["correspondence harness props/_proc_common.py + pv/ (fake /proc tree; os.kill, cext_posix.setpriority, "
+TRUSTED = ["live cases: the Linux kernel's sched_setaffinity/setpriority/ioprio_set/prlimit semantics as transcribed in coq/Proc/Live.v "
+           "(mask intersected with the eligible CPUs, EINVAL when empty; nice clamped), read back with os.sched_getaffinity, "
+           "os.getpriority, the ioprio_get syscall and resource.prlimit",
+           "correspondence harness props/_proc_common.py + pv/ (fake /proc tree; os.kill, cext_posix.setpriority, "
            "cext.proc_ioprio_set, cext.proc_cpu_affinity_set, resource.prlimit replaced by recorders that answer ESRCH "
            "exactly when the PID has no /proc entry)",
            "ghost incarnation numbers and the demanded answers in coq/Proc/Spec.v (written from the property text)"]
